@@ -60,6 +60,8 @@ type Node struct {
 	inbox     []inMsg
 	inboxEv   *rt.Event
 	Recovered bool
+	LastHeight map[string]uint32 // last height served per chain
+	heightByTask map[string]uint32
 
 	// external services survive a crash of the peerswap process
 	BtcWallet    *SimBtcWallet
